@@ -1607,6 +1607,7 @@ class Segments:
         # Mode indicator overhead
         if version > 0:  # QR Code
             overhead += len(self.modes) * 4
+            overhead += self.modes.count(consts.MODE_HANZI) * 4  # Subset indicator
         elif version > consts.VERSION_M1:  # Micro QR Code (M1 has no mode indicator)
             overhead += len(self.modes) * (version + 3)
         # Char count indicator overhead
